@@ -246,9 +246,11 @@ Proof.
   intros Hrel Hf Hb v [Hv|Hv].
   - destruct (r_vars _ _ _ _ _ _ _ _ _ _ _ Hrel v Hv) as (cc & x & p & _ & _ & Hp & _).
     rewrite Hp. apply (lf_incl _ _ _ _ _ _ Hf). exact Hp.
-  - unfold fnames in Hv. apply in_map_iff in Hv as ([f ar] & <- & Hin).
-    destruct (r_fun _ _ _ _ _ _ _ _ _ _ _ f ar Hrel Hin) as (cc & ci & p & fid & _ & _ & Hp & _).
-    cbn [fst]. rewrite Hp. apply (lf_incl _ _ _ _ _ _ Hf). exact Hp.
+  - assert (Hvb : v < bound) by (destruct (r_flb _ _ _ _ _ _ _ _ _ _ _ Hrel v Hv); assumption).
+    destruct (sget (fmt_var v) E) as [p|] eqn:Hp; [apply (lf_incl _ _ _ _ _ _ Hf); exact Hp|].
+    destruct (sget (fmt_var v) E') as [p'|] eqn:Hp'; [|reflexivity].
+    destruct (lf_new _ _ _ _ _ _ Hf _ _ Hp') as [H|(t & Heq & Ht)]; [congruence|].
+    apply fmt_var_inj in Heq. subst. lia.
 Qed.
 
 (* the success part of the conclusion; for a statement the scope grows from sc to sc' *)
